@@ -147,6 +147,22 @@ def to_number(value: JSValue) -> Union[int, float]:
     return float("nan")
 
 
+def to_integer(value: JSValue) -> int:
+    """Convert a JavaScript value to an integer (ToIntegerOrInfinity).
+
+    NaN becomes 0 and the result is truncated toward zero.  Infinities are
+    clamped to +/-2**53 so the result can always be used in index arithmetic.
+    """
+    n = to_number(value)
+    if isinstance(n, int):
+        return n
+    if math.isnan(n):
+        return 0
+    if math.isinf(n):
+        return 2**53 if n > 0 else -(2**53)
+    return int(n)
+
+
 def to_string(value: JSValue) -> str:
     """Convert a JavaScript value to string."""
     if value is UNDEFINED:
